@@ -9,22 +9,6 @@ varspec = name:f|i:lb:ub:val   (lb/ub: comma lists of `_`|rat; val: `_` or comma
 
 def tol : Rat := 25 / 1125899906842624   -- 100 * 2^-52
 
-def parseOList? (s : String) : Option (List (Option Rat)) :=
-  if s = "[]" then some [] else (s.splitOn ",").mapM parseORat?
-
-def showOList (l : List (Option Rat)) : String :=
-  if l.isEmpty then "[]" else ",".intercalate (l.map showORat)
-
-def parseVar? (s : String) : Option Var :=
-  match s.splitOn ":" with
-  | [n, t, lb, ub, v] => do
-    let lb ← parseOList? lb
-    let ub ← parseOList? ub
-    let isInt ← (if t = "i" then some true else if t = "f" then some false else none)
-    let val ← (if v = "_" then some none else (parseRatList? v).map some)
-    some ⟨n, isInt, lb, ub, val⟩
-  | _ => none
-
 def parseDict? (toks : List String) : Option (List (String × List Rat)) :=
   toks.mapM (fun t => match t.splitOn "=" with
     | [k, v] => (parseRatList? v).map (fun l => (k, l))
